@@ -7,6 +7,72 @@ COMMON_ASSUME = [
 ]
 
 PROPS = {
+    # temporary entry added by the C16 builder (lead: replace/adjust as needed)
+    "C16": {
+        "pkg": "c16",
+        "level": "exploration",
+        "rule": ("Paillier: secret keys built through znstar.NewPaillierGroup / paillier.NewSecretKey from two distinct fixture primes "
+                 "(openssl; flavour ord / Blum / safe; N of 1024, 1536, 2048, 3072 bits; ordered pair of drawn indices), public key from N "
+                 "alone or sk.Public(); plaintext class {0, 1, N-1, floor(N/2), -floor(N/2), floor(N/2)-1, small, drawn} through a drawn "
+                 "constructor (FromNat / Symmetric / Uint); nonce class {1, N-1, 2, drawn unit}; a drawn sequence of 0-8 operations "
+                 "{Op with a fresh / the same / an earlier ciphertext, Op with 3-5 operands, OpInv, ScalarOp with scalar class {0, +-1, 2, "
+                 "small+-, +-N, N+-1, drawn+-, beyond +-N, about +-N^2}, Shift by a plaintext class, ReRandomise with a nonce class}. "
+                 "Oracle: a math/big model (m, r) updated by +, *, negation, modular powers; after EVERY step the ciphertext equals the "
+                 "textbook (1+N)^m r^N mod N^2 (both factors by big.Int.Exp), Decrypt = m, Open = (m, r), Normalise is the symmetric "
+                 "representative, the library's Plaintext*/Nonce* operations equal the model, and every operation run on the secret key "
+                 "equals the same operation on the public key. Arbitrary units of Z_{N^2} (not produced by encryption): Decrypt / Open "
+                 "against lambda / L-function decryption and N-th-root nonce recovery, and re-encryption gives the unit back. Rejections: "
+                 "plaintexts outside [0,N) / the symmetric range, non-unit nonces and ciphertexts (multiples of p, q, N), objects of another "
+                 "key (same or other size) in every operation must be errors. ElGamal over k256, p256, edwards25519 prime subgroup, "
+                 "BLS12-381 G1 and G2, pallas, vesta: key x class, plaintext g^a P^b with P a hashed point, nonce class incl. 0, the same "
+                 "operation sequences; model (a, b, r) in Z_q^3 over math/big, ciphertext must equal (g^r, g^(a+xr) P^b) after every step, "
+                 "Decrypt = g^a P^b, sk path = pk path, re-randomisation changes the ciphertext iff the nonce is not the identity. "
+                 "Non-trivial: at least one homomorphic operation after the encryption (sequence tests) / every case (other tests); "
+                 "distinct = (key flavour and size | group, plaintext class, nonce class, operation-sequence shape with scalar / shift / "
+                 "nonce classes)."),
+        "assumptions": COMMON_ASSUME + [
+            "prime fixtures were generated with openssl and re-checked with math/big; keys are built by the library's constructors, its key generators are not exercised here (C17)",
+            "conversions between math/big and num.{Nat,NatPlus,Int} / curve scalars go through big-endian bytes and are guarded by round-trip checks; they are the subject of C17 / C14",
+            "ElGamal: the library's curve arithmetic evaluates g^e P^f for the model's exponents (curve arithmetic is C14); group orders are typed in from the standards",
+        ],
+        "quick": {"scale": 1, "shards": 16, "timeout_s": 600},
+        "thorough": {"scale": 12, "shards": 16, "timeout_s": 3600},
+    },
+    # temporary entry added by the C18 builder (lead: replace/adjust as needed)
+    "C18": {
+        "pkg": "c18",
+        "level": "exploration",
+        "rule": ("schemes: hashcom, pedersencom over k256 / p256 / edwards25519 prime subgroup / BLS12-381 G1 / pallas, intcom "
+                 "(ring-Pedersen over moduli built from openssl fixture primes, 1024-2048 bit, safe / Blum / ordinary), indcpacom "
+                 "over Paillier (fixture primes; public-key, secret-key and plain view) and ElGamal (k256, ed25519, p256; public / "
+                 "secret view). Keys: sampled, ExtractCommitmentKey from a transcript (given or drawn base point), explicit (g,h), "
+                 "trapdoor (sampled / NewTrapdoorKey with drawn g and lambda) and Export(). Per case: key kind, message class "
+                 "(empty / 1 B / block boundary / long; field 0, 1, q-1, 2^k, unreduced; integers 0, +-1, +-2^k, +-N+d, large), "
+                 "witness class (Commit-sampled or 0 / 1 / -1 / 2^k / drawn), then ONE change of message, witness, key or "
+                 "commitment (bit flip, +-1, negation, other value, other generator, swapped generators, other modulus, other valid "
+                 "commitment, re-encoded element). Oracle: the committed triple opens under every view of the key; a change that "
+                 "is semantic (decided on math/big values / element equality, e.g. changing g alone only when m != 0) makes Open "
+                 "return an error; a re-encoded equal element still opens. Equivocation: Equivocate(m,w,m') opens the same "
+                 "commitment to m' under Export(), w' != w iff m' != m, and neither mixed pair opens. Homomorphism: drawn "
+                 "sequences of 1-6 operations (Op in both orders and with 3 operands, self-Op, OpInv, ScalarOp incl. 0 / 1 / -1 / "
+                 "2^k / q-1 / N+-1 / negative, Shift, ReRandomise) applied in parallel to message, witness and commitment; after "
+                 "every step the commitment opens to the tracked pair under every view and equals CommitWithWitness of it. "
+                 "Transcript keys: drawn history of 0-5 operations and ONE of 15 edits (label, label suffix, name, extra append / "
+                 "empty append / separator / extraction, message bit, extra empty message, operation label, separator tag, drop, "
+                 "swap, re-split label|message) or none / Clone: keys equal iff no edit; Pedersen h != g, != identity, torsion-free. "
+                 "Non-trivial: a negative case (semantic change or rejected re-encoding), an operation sequence of length >= 2, an "
+                 "equivocation, an edited transcript pair; distinct = (scheme, group / modulus size and prime kind, key kind or "
+                 "view, change kind or operation-sequence shape incl. scalar classes or edit, message class, witness class)."),
+        "assumptions": COMMON_ASSUME + [
+            "whether a single change is semantic is decided from the documented shape of each scheme (which generator carries the "
+            "message, injectivity of (m,r) -> ciphertext); collisions of BLAKE2b, discrete-log coincidences and exponent differences "
+            "that are multiples of a hidden group order are treated as impossible",
+            "the homomorphism laws are checked as relations between the library's own Message/Witness/Commitment operations (stated "
+            "metamorphic relation), not against an independent formula",
+        ],
+        "quick": {"scale": 1, "shards": 8, "timeout_s": 600},
+        "thorough": {"scale": 10, "shards": 16, "timeout_s": 3000},
+    },
     "C19": {
         "pkg": "c19",
         "level": "exploration",
